@@ -39,6 +39,20 @@ def run(ctx):
             ctx.violation("delta-value", {"seq": s, "after": hist}, expected="a number", actual=out)
             continue
         trs.append({"tid": i + 1, "seq": list(s), "after": hist, "ev": [{"q": "delta", "r": common.fx(out[1])}]})
+    # beyond TLC's 32-bit bound (more than 1000 residues): the same definition in exact fractions by the harness; pairs that agree
+    # at both ends, charged tracts across 1024-residue boundaries
+    base = common.random_sequences(ctx.rng, 1, 1100, 1001)[0]
+    longs = [base, base[:3] + "".join(ctx.rng.sample(base[3:-3], len(base) - 6)) + base[-3:],
+             base[:1020] + "EEEEEEEE" + base[1028:] + "KKKKGSGS" * 130 + "DDDD",
+             "".join(ctx.rng.choices("KEDRGSPQ", k=ctx.pick(2050, 4100)))]
+    for s in longs:
+        out = common.call(lambda: lc.SP(s).get_delta(), limit=120)
+        ctx.evaluations += 1
+        exact = spec_delta(common.charge_pattern(s))
+        if out[0] != "ok" or not common.is_number(out[1]) or not common.close(out[1], exact):
+            ctx.violation("delta-value", {"seq": s, "length": len(s)}, expected=float(exact), actual=out)
+        else:
+            ctx.nontrivial.add(s)
     verdicts, known = traces.validate(ctx, "Trace_Queries", trs, {"sqrt": []})
     for tr in trs:
         v = verdicts[tr["tid"]]
